@@ -41,9 +41,97 @@ def gen_doc(rng, force_colour=True) -> dict:
     return R.gen_recipe(rng, t, pal)
 
 
+LATEX_TEXTS = ["\\alpha = 0.05", "\\beta-blocker", "\\pm 3", "x^2", "a_b", "\\mu g"]
+
+
+def rich_doc(rng, variant: int, kind: str = "single", nfig: int = 2) -> dict:
+    """A feature-rich document; `variant` 0/1 selects *contrasting* settings for
+    everything a shared scratch value could carry from one thread to another:
+    palette, text conversion on/off (with LaTeX-bearing text in both), borders,
+    formats, justification, font sizes, column widths."""
+    pals = (["red", "gold", "navy"], ["cyan4", "tomato", "purple"])[variant % 2]
+    conv = bool(variant % 2 == 0)
+    fmt = ("b", "i")[variant % 2]
+    just = ("l", "r")[variant % 2]
+    size = (9, 11)[variant % 2]
+    bstyle = ("single", "double")[variant % 2]
+
+    def frame(ncols, nrows):
+        cols = []
+        for j in range(ncols):
+            vals = [rng.choice(LATEX_TEXTS + ["Drug A", "12.5", "n (%)"]) for _ in range(nrows)]
+            cols.append([f"c{j}", "str", vals])
+        return {"cols": cols}
+
+    def body(ncols):
+        return {"text_color": [[rng.choice(pals) for _ in range(ncols)]], "text_background_color": pals[0],
+                "border_color_top": [[pals[1]]], "text_convert": [[conv]], "text_format": [[fmt]],
+                "text_justification": [[just]], "text_font_size": [[size]], "border_top": [[bstyle]],
+                "col_rel_width": [1 + ((j + variant) % 3) for j in range(ncols)]}
+
+    rec = {"kind": kind, "page": {"border_first": bstyle, "border_last": ("double", "single")[variant % 2],
+                                  "nrow": (6, 8)[variant % 2] if kind != "figure" else 10,
+                                  "page_title": ("all", "first")[variant % 2], "page_footnote": ("last", "all")[variant % 2]},
+           "title": {"text": [rng.choice(LATEX_TEXTS), "Table 14.1." + str(variant)], "text_color": [pals[1]],
+                     "text_convert": [conv], "text_format": [fmt]},
+           "subline": None,
+           "page_header": {"text": "Protocol " + rng.choice(LATEX_TEXTS), "text_convert": [conv], "text_color": [pals[2]]},
+           "page_footer": {"text": "Confidential " + str(variant), "text_color": [pals[0]]},
+           "footnote": {"text": [rng.choice(LATEX_TEXTS), "note"], "text_color": [[pals[2]]], "text_convert": [[conv]],
+                        "as_table": kind != "figure"},
+           "source": {"text": "Source: " + rng.choice(LATEX_TEXTS), "text_convert": [[conv]], "as_table": False}}
+    if kind == "figure":
+        rec["figure"] = {"files": [{"fmt": "png", "w": 40 + 10 * i, "h": 30, "seed": 100 + i} for i in range(nfig)],
+                         "kw": {"fig_width": [3.0 + variant] * nfig}}
+        rec["dfs"], rec["bodies"], rec["headers"] = [], [], "default"
+        return rec
+    nsec = 1 if kind == "single" else 2
+    rec["dfs"], rec["bodies"], hdrs = [], [], []
+    for s in range(nsec):
+        n = 3 if (s + variant) % 2 == 0 else 2
+        rec["dfs"].append(frame(n, (7, 9)[variant % 2] if s == 0 else 3))
+        rec["bodies"].append(body(n))
+        hdrs.append([{"text": [rng.choice(LATEX_TEXTS) for _ in range(n)], "text_color": [[pals[0]]],
+                      "text_convert": [[conv]], "border_bottom": [[bstyle]]}])
+    rec["headers"] = hdrs[0] if kind == "single" else hdrs
+    return rec
+
+
+def gen_docs(rng, n: int) -> list:
+    """Documents for n threads: contrasting rich documents, documents from one
+    palette (overlapping component specs and images, possibly equal-valued
+    copies), or independent seeded documents."""
+    mode = rng.choice(["rich", "rich", "overlap", "overlap", "independent"])
+    if mode == "rich":
+        kinds = [rng.choice(["single", "single", "multi", "figure"]) for _ in range(n)]
+        v0 = rng.randrange(2)
+        return [rich_doc(rng, v0 + i, kinds[i]) for i in range(n)], mode
+    if mode == "overlap":
+        t = R.gen_toggles(rng)
+        if not t["palette"] and rng.random() < 0.8:
+            t["colours"] = True
+            t["palette"] = rng.sample(R.COLORS, 3)
+        t["small_nrow"] = rng.random() < 0.3
+        if rng.random() < 0.4:
+            t["figure"] = True
+        pal = R.gen_palette_of_specs(rng, t)
+        recs = [R.gen_recipe(rng, t, pal) for _ in range(n)]
+        figs = [r for r in recs if r["kind"] == "figure"]
+        if len(figs) >= 2 and rng.random() < 0.7:
+            # same image in two documents (and one of them with a second image)
+            figs[1]["figure"]["files"] = [dict(figs[0]["figure"]["files"][0])] + figs[1]["figure"]["files"][:1]
+            figs[1]["figure"]["kw"].pop("fig_width", None)
+        if rng.random() < 0.4:
+            import json as _json
+
+            recs[-1] = _json.loads(_json.dumps(recs[0]))  # an equal-valued document on another thread
+        return recs, mode
+    return [gen_doc(rng, force_colour=rng.random() < 0.9) for _ in range(n)], mode
+
+
 def gen_plan(rng) -> dict:
     n = 2 if rng.random() < 0.7 else 3
-    recs = [gen_doc(rng, force_colour=rng.random() < 0.9) for _ in range(n)]
+    recs, doc_mode = gen_docs(rng, n)
     kind = rng.choice(["strata", "strata", "random", "pct", "one"])
     dec: dict = {"kind": kind}
     if kind == "strata":
@@ -64,7 +152,7 @@ def gen_plan(rng) -> dict:
     if rng.random() < 0.15:
         abort = {"thread": rng.randrange(n), "u": rng.random(),
                  "exc": rng.choice(["MemoryError", "KeyboardInterrupt", "ValueError"]), "k": None}
-    return {"recipes": recs, "decider": dec, "first": rng.randrange(n),
+    return {"recipes": recs, "decider": dec, "first": rng.randrange(n), "doc_mode": doc_mode,
             "trace_mode": rng.choice(["call", "call", "callret", "line"]), "decisions": None, "abort": abort}
 
 
@@ -100,6 +188,9 @@ class Sched:
         self.thread_steps = [0] * n
         self.sites_seen: set = set()
         self.collect_sites = plan.get("collect_sites", False)
+        self.hot_sites = set(plan.get("hot_sites") or [])
+        self.list_hot = bool(plan.get("list_hot_steps"))
+        self.hot_steps: list = []
         dec = plan["decider"]
         self.kind = dec["kind"] if plan.get("decisions") is None else "explicit"
         self.explicit = {int(s): int(t) for s, t in (plan.get("decisions") or [])}
@@ -176,6 +267,8 @@ class Sched:
         self.step += 1
         self.thread_steps[i] += 1
         self.last_event = time.monotonic()
+        if self.list_hot and ev == "line" and not self.decisions:
+            self.hot_steps.append(self.step)
         if self.collect_sites:
             from . import boot
 
@@ -281,6 +374,7 @@ def exec_schedule(arg) -> dict:
     sched = Sched(n, plan, hint)
     want_ret = tmode == "callret"
     want_line = tmode == "line"
+    hot = set(plan.get("hot_sites") or []) if tmode == "hot" else None
     outcomes: list = [None] * n
     abort = plan.get("abort")
     abort_fired = [None]
@@ -323,6 +417,8 @@ def exec_schedule(arg) -> dict:
                 frame.f_trace_lines = False
                 return local
             if want_line:
+                return local_line
+            if hot is not None and boot.site_of(frame.f_code) in hot:
                 return local_line
             return None
 
@@ -391,7 +487,106 @@ def exec_schedule(arg) -> dict:
         "abort_fired": abort_fired[0],
         "coop_locks_created": dict(cooplock.CREATED),
         "sites_seen": sorted(sched.sites_seen) if sched.collect_sites else None,
+        "hot_steps": sched.hot_steps if sched.list_hot else None,
     }
+
+
+PROFILE_GRAIN = 64
+
+
+def profile_hot(arg) -> dict:
+    """Greybox targeting: which library functions write process-shared state
+    while a document is encoded?  Library call/return boundaries compare a cheap
+    signature of all module globals / class attributes / mutable function
+    defaults under rtflite.*; a change is attributed to the library function
+    that was executing.  Runs in a pristine child; each document is encoded
+    twice (first use may initialise lazily, later uses show the steady state).
+
+    Two passes keep it cheap: pass 1 (windows=None) compares the signature every
+    PROFILE_GRAIN boundaries and returns the windows in which it changed; pass 2
+    repeats the identical process in another pristine child and compares at every
+    boundary inside those windows only."""
+    from . import boot, state
+
+    boot.bootstrap(coop_locks=True)
+    R.warmup()
+    figdir = arg["figdir"]
+    os.makedirs(figdir, exist_ok=True)
+    windows = arg.get("windows")  # None or {"<ri>:<rep>": [window indices]}
+    fs = state.FastSig()
+    hot: dict = {}
+    flagged: dict = {}
+    for ri, recipe in enumerate(arg["recipes"]):
+        try:
+            doc, _ = R.build(recipe, None, None, figdir)
+        except BaseException:  # noqa: BLE001
+            continue
+        for rep in range(2):
+            key = f"{ri}:{rep}"
+            fine = None
+            if windows is not None:
+                fine = set()
+                for w in windows.get(key, []):
+                    fine.update((w - 1, w, w + 1))
+            stack: list = []
+            last = [fs.sig()]
+            n = [0]
+
+            def check(code, caller=None):
+                n[0] += 1
+                w = n[0] // PROFILE_GRAIN
+                if fine is None:
+                    if n[0] % PROFILE_GRAIN:
+                        return
+                elif w not in fine:
+                    if n[0] % PROFILE_GRAIN == 0:
+                        last[0] = fs.sig()  # keep the baseline current outside the fine windows
+                    return
+                cur = fs.sig()
+                if cur != last[0]:
+                    last[0] = cur
+                    if fine is None:
+                        flagged.setdefault(key, []).append(w)
+                    elif code is not None:
+                        k = boot.site_of(code)
+                        hot[k] = hot.get(k, 0) + 1
+                        if caller is not None:
+                            # the window "after the write, before the caller's next read" lies in the caller
+                            kc = boot.site_of(caller)
+                            hot.setdefault(kc, 0)
+
+            def local(frame, event, a):
+                if event == "return":
+                    check(frame.f_code, stack[-2] if len(stack) > 1 else None)
+                    if stack:
+                        stack.pop()
+                return local
+
+            def tracer(frame, event, a):
+                if event != "call" or not boot.is_lib_code(frame.f_code):
+                    return None
+                check(stack[-1] if stack else None, stack[-2] if len(stack) > 1 else None)
+                stack.append(frame.f_code)
+                frame.f_trace_lines = False
+                return local
+
+            sys.settrace(tracer)
+            try:
+                R.outcome_of(doc.rtf_encode)
+            finally:
+                sys.settrace(None)
+            if fine is None and fs.sig() != last[0]:
+                flagged.setdefault(key, []).append(n[0] // PROFILE_GRAIN)
+                flagged[key].append(n[0] // PROFILE_GRAIN + 1)
+    return {"hot": hot, "flagged": flagged, "slots": len(fs.slots)}
+
+
+def find_hot_sites(recipes: list, figdir: str) -> dict:
+    p1 = core.run_in_child(profile_hot, {"recipes": recipes, "figdir": figdir})
+    if not p1["flagged"]:
+        return {}
+    p2 = core.run_in_child(profile_hot, {"recipes": recipes, "figdir": figdir, "windows": p1["flagged"]})
+    return p2["hot"]
 
 
 # --------------------------------------------------------------------------
@@ -648,7 +843,7 @@ def summarise(plan, res, refs, idx) -> dict:
         "paths": [r["kind"] for r in plan["recipes"]],
         "natural_failures": sum(1 for i in range(len(plan["recipes"]))
                                 if refs[str(i)]["encode"] and refs[str(i)]["encode"]["k"] != "ok"),
-        "trace_mode": plan.get("trace_mode"),
+        "trace_mode": plan.get("trace_mode"), "doc_mode": plan.get("doc_mode"),
         "sample": {"decider": plan["decider"], "first": plan["first"], "decisions": res["decisions"][:12],
                    "switch_log": sl[:6], "docs": [R.recipe_traits(r) for r in plan["recipes"]],
                    "thread_outcomes": [t["outcome"]["k"] for t in res["threads"]]} if idx < 3 else None,
@@ -660,50 +855,88 @@ def summarise(plan, res, refs, idx) -> dict:
 # --------------------------------------------------------------------------
 
 
-def sweep_pairs(root: int, n_pairs: int) -> list:
-    """Seeded choice of document pairs covering the encode paths."""
-    rng = core.rng_for(root, PROP, "sweep-pairs")
-    want = [("single", "single"), ("single", "multi"), ("single", "figure"), ("multi", "multi"),
-            ("single", "single-failing"), ("multi", "figure")]
-    pairs = []
-    for a_kind, b_kind in want[:n_pairs]:
-        def pick(kind):
-            for _ in range(400):
-                r = gen_doc(rng, force_colour=True)
-                failing = any(f["cols"][0][2][:3] == ["G1", "G2", "G1"] and "group_by" in b
-                              for f, b in zip(r.get("dfs", []), r.get("bodies", [])))
-                base = kind.split("-")[0]
-                if r["kind"] != base:
-                    continue
-                if ("failing" in kind) != failing:
-                    continue
-                rows = sum(len(f["cols"][0][2]) for f in r.get("dfs", []))
-                if rows > 8:
-                    continue
-                return r
-            return gen_doc(rng)
-        pairs.append((pick(a_kind), pick(b_kind)))
-    return pairs
+def sweep_groups(root: int, n_groups: int) -> list:
+    """Document pairs for the systematic sweep.  Contrasting pairs expose shared
+    scratch state (the victim picks up the other document's value); overlapping
+    and equal-valued pairs expose content-keyed caches that are briefly
+    inconsistent."""
+    import json as _json
+
+    rng = core.rng_for(root, PROP, "sweep-groups")
+    SA, SB = rich_doc(rng, 0, "single"), rich_doc(rng, 1, "single")
+    MA, MB = rich_doc(rng, 0, "multi"), rich_doc(rng, 1, "multi")
+    FA = rich_doc(rng, 0, "figure", nfig=2)
+    FB = rich_doc(rng, 1, "figure", nfig=1)
+    FB["figure"]["files"] = [dict(FA["figure"]["files"][1])]  # same image as FA's second figure
+    failing = None
+    for _ in range(400):
+        r = gen_doc(rng, force_colour=True)
+        if r["kind"] == "single" and any(
+                f["cols"][0][2][:3] == ["G1", "G2", "G1"] and "group_by" in b for f, b in zip(r["dfs"], r["bodies"])):
+            failing = r
+            break
+    grouped = None
+    for _ in range(400):
+        r = gen_doc(rng, force_colour=True)
+        if r["kind"] == "single" and any(("page_by" in b or "subline_by" in b) for b in r["bodies"]) and \
+                sum(len(f["cols"][0][2]) for f in r["dfs"]) <= 13:
+            grouped = r
+            break
+    groups = [("single-vs-single", SA, SB), ("multi-vs-figure", MA, FB), ("figure-overlap", FA, FB),
+              ("equal-valued", SB, _json.loads(_json.dumps(SB))), ("multi-vs-multi", MA, MB),
+              ("single-vs-failing", SA, failing or SB), ("grouped-vs-single", grouped or MB, SA),
+              ("figure-vs-single", FA, SB)]
+    return groups[:n_groups]
 
 
-def sweep_jobs(root: int, pairs: list, refcache: RefCache, specs: list) -> list:
-    """specs: [(pair index, trace mode, stride)]"""
+def hot_job(j: dict) -> dict:
+    ws = _ws()
+    hot = find_hot_sites(j["recipes"], ws["figdir"])
+    out = {"hot": hot, "hot_steps": {}}
+    if hot:
+        refs = {str(i): ws["refcache"].get(r) for i, r in enumerate(j["recipes"])}
+        for order in (0, 1):
+            plan = {"recipes": j["recipes"], "decider": {"kind": "sweep"}, "first": order, "trace_mode": "hot",
+                    "hot_sites": sorted(hot), "decisions": [], "abort": None, "list_hot_steps": True}
+            res = run_plan(plan, refs, ws["figdir"])
+            out["hot_steps"][str(order)] = res["hot_steps"] or []
+    return out
+
+
+def sweep_jobs(root: int, groups: list, refcache: RefCache, specs: list, hot_info: dict, hot_cap: int) -> list:
+    """specs: [(group index, trace mode, stride)]; hot_info: group index -> hot_job result."""
     jobs = []
     idx = 10_000_000
-    for pi, trace_mode, stride in specs:
-        a, b = pairs[pi]
+    for gi, trace_mode, stride in specs:
+        if gi >= len(groups):
+            continue
+        name, a, b = groups[gi]
+        recs = [a, b]
         for order in (0, 1):
-            recs = [a, b]
             first = order
             ref_first = refcache.get(recs[first])
             K = ((ref_first.get("ncalls") or 0) + (ref_first.get("nlines") or 0) if trace_mode == "line"
                  else (ref_first.get("ncalls") or 0) * (2 if trace_mode == "callret" else 1))
-            off = core.rng_for(root, PROP, "sweep-offset", pi, order, trace_mode).randrange(stride) if stride > 1 else 0
+            off = core.rng_for(root, PROP, "sweep-offset", gi, order, trace_mode).randrange(stride) if stride > 1 else 0
             for k in range(1 + off, K + 1, stride):
                 plan = {"recipes": recs, "decider": {"kind": "sweep"}, "first": first, "trace_mode": trace_mode,
                         "decisions": [[k, 1 - first]], "abort": None}
-                jobs.append({"idx": idx, "sweep": {"pair": pi, "order": order, "k": k, "K": K, "mode": trace_mode,
+                jobs.append({"idx": idx, "sweep": {"group": name, "order": order, "k": k, "K": K, "mode": trace_mode,
                                                    "stride": stride}, "plan": plan})
+                idx += 1
+    # targeted: every statement boundary inside functions seen writing shared state
+    for gi, info in sorted(hot_info.items()):
+        name, a, b = groups[gi]
+        if not info.get("hot"):
+            continue
+        for order in (0, 1):
+            steps = info["hot_steps"].get(str(order), [])
+            stride = max(1, -(-len(steps) // hot_cap))
+            for k in steps[::stride]:
+                plan = {"recipes": [a, b], "decider": {"kind": "sweep"}, "first": order, "trace_mode": "hot",
+                        "hot_sites": sorted(info["hot"]), "decisions": [[k, 1 - order]], "abort": None}
+                jobs.append({"idx": idx, "sweep": {"group": name, "order": order, "k": k, "K": len(steps),
+                                                   "mode": "hot", "stride": stride}, "plan": plan})
                 idx += 1
     return jobs
 
@@ -712,10 +945,11 @@ def sweep_jobs(root: int, pairs: list, refcache: RefCache, specs: list) -> list:
 # batch
 # --------------------------------------------------------------------------
 
-TIERS = {"quick": {"runs": 2400, "wall": 420.0, "pairs": 2,
-                   "sweeps": [(0, "call", 4), (1, "call", 4), (0, "line", 24), (1, "line", 24)]},
-         "thorough": {"runs": 60000, "wall": 3000.0, "pairs": 6,
-                      "sweeps": [(i, "callret", 1) for i in range(6)] + [(i, "line", 4) for i in range(6)]}}
+TIERS = {"quick": {"runs": 1200, "wall": 420.0, "groups": 4, "hot_cap": 800,
+                   "sweeps": [(0, "call", 16), (1, "call", 16), (2, "call", 6), (3, "call", 16),
+                              (0, "line", 96)]},
+         "thorough": {"runs": 60000, "wall": 3000.0, "groups": 8, "hot_cap": 4000,
+                      "sweeps": [(i, "callret", 1) for i in range(8)] + [(i, "line", 4) for i in range(8)]}}
 
 
 def main(opts) -> int:
@@ -731,12 +965,20 @@ def main(opts) -> int:
     # systematic one-pre-emption sweep
     figdir = tempfile.mkdtemp(prefix="vc15main_")
     rc = RefCache(figdir)
-    pairs = sweep_pairs(root, tier["pairs"])
-    sjobs = sweep_jobs(root, pairs, rc, tier["sweeps"])
+    groups = sweep_groups(root, tier["groups"])
+    hres, _ = core.pool_map(hot_job, [{"recipes": [a, b]} for _n, a, b in groups])
+    hot_info = {}
+    herrs = []
+    for gi, r in sorted(hres.items()):
+        if "harness_error" in r:
+            herrs.append(f"hot profile of group {gi}: {r['harness_error'][:500]}")
+        else:
+            hot_info[gi] = r
+    sjobs = sweep_jobs(root, groups, rc, tier["sweeps"], hot_info, tier["hot_cap"])
     jobs = sjobs + [{"root": root, "idx": i} for i in range(runs)]
     results, truncated = core.pool_map(job, jobs, wall_cap=wall)
-    herrs = [f"run {jobs[i].get('idx')}: {r['harness_error'][:600]}" for i, r in sorted(results.items())
-             if "harness_error" in r]
+    herrs += [f"run {jobs[i].get('idx')}: {r['harness_error'][:600]}" for i, r in sorted(results.items())
+              if "harness_error" in r]
     good = [r for _, r in sorted(results.items()) if "harness_error" not in r]
     violations = [v for r in good for v in r["violations"]]
 
@@ -752,7 +994,8 @@ def main(opts) -> int:
     n_new, n_known, rcode = cli.report(PROP, violations, herrs, confirm, body)
     wall_s = time.monotonic() - t0
     if not opts.no_evidence:
-        write_evidence(opts, good, len(jobs), len(results), truncated, sjobs, pairs, tier, n_new, n_known, wall_s, herrs)
+        write_evidence(opts, good, len(jobs), len(results), truncated, sjobs, groups, hot_info, tier, n_new, n_known,
+                       wall_s, herrs)
     sw = [r for r in good if r.get("sweep")]
     print(f"C15 {opts.tier}: {len(good) - len(sw)} seeded schedules + {len(sw)}/{len(sjobs)} sweep schedules, "
           f"{sum(r['steps'] for r in good)} steps, {n_new} new violation(s), {n_known} known, "
@@ -760,7 +1003,7 @@ def main(opts) -> int:
     return rcode
 
 
-def write_evidence(opts, good, njobs, nres, truncated, sjobs, pairs, tier, n_new, n_known, wall_s, herrs):
+def write_evidence(opts, good, njobs, nres, truncated, sjobs, groups, hot_info, tier, n_new, n_known, wall_s, herrs):
     from . import boot
 
     sw = [r for r in good if r.get("sweep")]
@@ -774,10 +1017,13 @@ def write_evidence(opts, good, njobs, nres, truncated, sjobs, pairs, tier, n_new
         sites.update(r["switch_sites"])
         pairs_seen.update(r["site_pairs"])
         kinds[r["kind"]] = kinds.get(r["kind"], 0) + 1
+    doc_modes: dict = {}
+    for r in seeded:
+        doc_modes[r.get("doc_mode")] = doc_modes.get(r.get("doc_mode"), 0) + 1
     sweep_prog: dict = {}
     for r in sw:
         s = r["sweep"]
-        key = f"pair{s['pair']}-order{s['order']}-{s['mode']}-stride{s['stride']}"
+        key = f"{s['group']}-order{s['order']}-{s['mode']}-stride{s['stride']}"
         d = sweep_prog.setdefault(key, {"K": s["K"], "done": 0})
         d["done"] += 1
     sweep_complete = bool(sjobs) and len(sw) == len(sjobs) and any(st == 1 for _p, _m, st in tier["sweeps"])
@@ -789,13 +1035,19 @@ def write_evidence(opts, good, njobs, nres, truncated, sjobs, pairs, tier, n_new
                  "mode, return) boundaries. Decision sources: bounded pre-emption strata (1-3 switches at seeded "
                  "steps), random (p in 1e-3..1e-1), PCT-style priorities, and the systematic one-pre-emption sweep "
                  "(A runs to its k-th boundary, B runs to completion, A finishes; every k-th k with seeded offset in "
-                 "quick, every k in thorough; both orders). A schedule is non-trivial when at least one switch "
+                 "quick, every k in thorough; both orders; document pairs are contrasting, overlapping and "
+                 "equal-valued), plus a targeted statement-level sweep inside every function that a profiling run "
+                 "saw writing process-shared state. A schedule is non-trivial when at least one switch "
                  "happened while both threads were inside rtf_encode; distinct by the digest of its abstracted "
                  "switch list (from-thread, to-thread, pre-empted call site)."),
         "samples": [r["sample"] for r in good if r.get("sample")][:3],
         "schedules_seeded": len(seeded), "schedules_sweep": len(sw), "sweep_jobs_planned": len(sjobs),
-        "sweep_specs_pair_mode_stride": [list(x) for x in tier["sweeps"]],
-        "sweep_progress": sweep_prog, "sweep_pairs": [[R.recipe_traits(a), R.recipe_traits(b)] for a, b in pairs],
+        "sweep_specs_group_mode_stride": [list(x) for x in tier["sweeps"]],
+        "sweep_progress": sweep_prog,
+        "sweep_groups": [[n, R.recipe_traits(a), R.recipe_traits(b)] for n, a, b in groups],
+        "shared_state_writers_found_by_profiling": {groups[gi][0]: sorted(info.get("hot", {}))
+                                                    for gi, info in sorted(hot_info.items())},
+        "doc_modes_seeded": doc_modes,
         "exhaustive": False,
         "one_preemption_sweep_complete_for_listed_pairs_at_stride_1_specs": sweep_complete,
         "schedules_per_hour": int(len(good) / wall_s * 3600) if wall_s > 0 else 0,
